@@ -66,8 +66,9 @@ type Cfg struct {
 	Height   specqbft.Height
 	Byz      spectypes.OperatorID // 0 = none (all n operators honest)
 	Start    map[spectypes.OperatorID]byte
-	MaxRound specqbft.Round // no timeout is fired at an operator whose round is >= MaxRound
-	Policy   *Policy        // behaviour of Byz (nil = silent)
+	MaxRound specqbft.Round         // no timeout is fired at an operator whose round is >= MaxRound
+	Policy   *Policy                // behaviour of Byz (nil = silent)
+	Silent   []spectypes.OperatorID // further faulty operators that never send anything
 	Role     spectypes.BeaconRole
 	Domain   spectypes.DomainType // zero value = testingutils.TestingSSVDomainType
 
@@ -98,7 +99,13 @@ func (c *Cfg) Init() {
 		c.shares[spectypes.OperatorID(i)] = c.mkShare(spectypes.OperatorID(i), committee)
 	}
 	for i := 1; i <= c.N; i++ {
-		if spectypes.OperatorID(i) != c.Byz {
+		silent := false
+		for _, x := range c.Silent {
+			if x == spectypes.OperatorID(i) {
+				silent = true
+			}
+		}
+		if spectypes.OperatorID(i) != c.Byz && !silent {
 			c.Honest = append(c.Honest, spectypes.OperatorID(i))
 		}
 	}
@@ -132,6 +139,9 @@ func (c *Cfg) Leader(round specqbft.Round) spectypes.OperatorID {
 
 func (c *Cfg) String() string {
 	s := fmt.Sprintf("n=%d h=%d byz=%d R=%d start=", c.N, c.Height, c.Byz, c.MaxRound)
+	if len(c.Silent) > 0 {
+		s = fmt.Sprintf("n=%d h=%d byz=%d silent=%v R=%d start=", c.N, c.Height, c.Byz, c.Silent, c.MaxRound)
+	}
 	for _, h := range c.Honest {
 		s += string(c.Start[h])
 	}
